@@ -476,9 +476,11 @@ Proof.
       | (if ?c then _ else _) = _ => destruct c
       end; try discriminate;
       try (apply IH in E; [cbn [o_get o_keepttl] in E; tauto|lia]).
-      + destruct rest as [|a rest']; [discriminate|]. destruct (x_int parse_u64 a); [|discriminate].
+      + destruct rest as [|a rest']; [discriminate|]. destruct (x_int parse_u64 a) as [zz|]; [|discriminate].
+        destruct (zz =? 0); [discriminate|].
         apply IH in E; [cbn [o_get o_keepttl] in E; tauto|cbn [length] in *; lia].
-      + destruct rest as [|a rest']; [discriminate|]. destruct (x_int parse_u64 a); [|discriminate].
+      + destruct rest as [|a rest']; [discriminate|]. destruct (x_int parse_u64 a) as [zz|]; [|discriminate].
+        destruct (zz =? 0); [discriminate|].
         apply IH in E; [cbn [o_get o_keepttl] in E; tauto|cbn [length] in *; lia]. }
   intros o o'. apply (G (length opts)). lia.
 Qed.
@@ -516,6 +518,7 @@ Proof.
     { destruct rest as [|b rest']; [exact I|].
       rewrite bulks_cons. cbn [forallb] in Hv. apply andb_prop in Hv. destruct Hv as [Hb Hv].
       rewrite (x_int_valid _ _ Hb). destruct (parse_u64 b) as [m|]; [|exact I].
+      destruct (m =? 0); [exact I|].
       cbn [length] in *.
       apply (IH rest' ltac:(lia) fuel {| o_nx := o_nx o; o_xx := o_xx o; o_get := o_get o; o_exp := Some (m * 1000); o_keepttl := o_keepttl o |});
         [exact Hp|exact Hv|lia]. }
@@ -523,6 +526,7 @@ Proof.
     { destruct rest as [|b rest']; [exact I|].
       rewrite bulks_cons. cbn [forallb] in Hv. apply andb_prop in Hv. destruct Hv as [Hb Hv].
       rewrite (x_int_valid _ _ Hb). destruct (parse_u64 b) as [m|]; [|exact I].
+      destruct (m =? 0); [exact I|].
       cbn [length] in *.
       apply (IH rest' ltac:(lia) fuel {| o_nx := o_nx o; o_xx := o_xx o; o_get := o_get o; o_exp := Some m; o_keepttl := o_keepttl o |});
         [exact Hp|exact Hv|lia]. }
